@@ -256,3 +256,8 @@ fn test_pow_biguint() {
 
     assert_eq!(BigUint::from(125u8), base.pow(exponent));
 }
+
+#[cfg(num_bigint_verif)]
+pub(super) fn verif_plain_modpow(base: &BigUint, exp_data: &[BigDigit], modulus: &BigUint) -> BigUint {
+    plain_modpow(base, exp_data, modulus)
+}
